@@ -348,6 +348,7 @@ def parseScript (s : String) : Option World :=
   toks.foldlM (fun (w : World) tok =>
     if tok.startsWith "serial=" then (parseHex (tok.drop 7).toString).map fun b => { w with serial := b }
     else if tok.startsWith "tid=" then (parseHex (tok.drop 4).toString).map fun b => { w with tid := b }
+    else if tok.startsWith "gap=" then ((tok.drop 4).toString.toNat?).map fun g => { w with gap := g }
     else if tok.startsWith "conn=" then some { w with connects := (tok.drop 5).toString.splitOn "," }
     else if tok.startsWith "r:" then
       match (tok.drop 2).toString.splitOn "=" with
